@@ -510,6 +510,7 @@ class Prop(Check):
         "History.C16_history_walk",
         "History.C16_same_as_fresh_walk",
         "History.C16_walk_sep_false",
+        "History.C16_creation_frame",
     ]
     DRIVER = "Drivers/History.lean"
     QUICK_CASES = 72          # x 5 histories = 360 histories, ~2600 operations
@@ -631,9 +632,6 @@ class Prop(Check):
             ops, run = case["histories"][h], obs["runs"][h]
             if "outs" not in ans:
                 return f"history {h}: model rejected the request: {str(ans)[:200]}"
-            if ans.get("walkOK") is not True:
-                return (f"history {h}: a repetition reachable from a parser model has a separator that is not a Match object "
-                        f"(walkOK = {ans.get('walkOK')}): Arpeggio's cache walk does not follow `sep`, the premise of C16_walk_run fails")
             louts, lhid = ans["outs"][npool:], ans["hid"][npool:]
             # state "pool created"
             d = self.hid_diff(obs["hid0"], ans["hid"][npool - 1], case, None)
@@ -649,6 +647,10 @@ class Prop(Check):
                 d = self.out_diff(st, louts[i], run["lean"]["trees"][i])
                 if d:
                     return f"{where}: {d}"
+            # the machine run by the driver (`realWalk`) is the machine of the history theorems only under this premise
+            if ans.get("walkOK") is not True:
+                return (f"history {h}: a repetition reachable from a parser model has a separator that is not a Match object "
+                        f"(walkOK = {ans.get('walkOK')}): Arpeggio's cache walk does not follow `sep`, the premise of C16_walk_run fails")
         return None
 
     @staticmethod
